@@ -28,10 +28,16 @@ SIZE_SYMS = {"self.nbytes": "S"}
 
 
 class _Ev(Evaluator):
-    """st_size reads -> S, itemsize -> I, nc -> NC, fs -> FS."""
+    """st_size reads -> S, itemsize -> I, nc -> NC, fs -> FS.  Locals with one definition are expanded."""
+    du = None
+    at = None
 
     def ev(self, e):
         s = src(e)
+        if isinstance(e, ast.Name) and self.du is not None and e.id not in self.env:
+            v = expand_name(self.du, e, self.at if self.at is not None else e)
+            if v is not e:
+                return self.ev(v)
         if isinstance(e, ast.Attribute) and e.attr == "st_size":
             return Poly.sym("S")
         if s in ("self.nbytes",):
@@ -90,6 +96,7 @@ def d1_floor(ctx):
         compressed = any("is_mtscomp" in src(t) and pol for t, pol in gs)
         v = expand_name(du, st.value, st)
         ev = _Ev(facts=facts, resolve=lambda e: repo.resolve_expr(fi, e))
+        ev.du, ev.at = du, st
         try:
             p = ev.ev(v)
         except Undecided as e:
@@ -146,6 +153,7 @@ def d2_order(ctx):
     okt = False
     if isinstance(t, ast.Compare) and len(t.ops) == 1 and isinstance(t.ops[0], ast.NotEq):
         ev = _Ev(facts=Facts())
+        ev.du, ev.at = DefUse(fi.node), tests[0]
         a, b = ev.ev(t.left), ev.ev(t.comparators[0])
         want = Poly.sym("NC") * Poly.sym("NS") * Poly.sym("I")
         okt = {a.canon(), b.canon()} == {want.canon(), "S"}
@@ -165,5 +173,5 @@ def d2_order(ctx):
 
 
 def run(ctx):
-    d1_floor(ctx)
-    d2_order(ctx)
+    ctx.run(d1_floor)
+    ctx.run(d2_order)
